@@ -187,6 +187,10 @@ def shapes(tier, seed):
     out.append(('sts', 'civil'))
     out.append(('sts', 'parsed+'))
     out.append(('sts', 'parsed-'))
+    # the crate's own glue between parser and authenticator (whole pipeline): timestamps with a fraction, near midnight, with an offset
+    for variant in ('frac', 'midnight', 'offset'):
+        for carrier in ('header', 'query'):
+            out.append(('pipeline', variant, carrier))
     return out
 
 
@@ -240,6 +244,11 @@ def build_input(ctx, shape):
     raise ValueError(shape)
 
 
+def hex_of(elems):
+    from mirse.model_misc import hex_encode_elems
+    return hex_encode_elems(elems)
+
+
 def mk_authenticator(cred_elems, dt, sig=b'0' * 64):
     return Adt('SigV4Authenticator', None,
                [Array([Int('u8', 0xAB)] * 32), VecObj(list(cred_elems), 'string'), none(),
@@ -251,6 +260,49 @@ def run_shape(prog, shape, tier, seed, res):
     kind = shape[0]
 
     def body(m, ctx):
+        if kind == 'pipeline':
+            from . import pipeline as P
+            from mirse.model_hash import oracle_of
+            variant, carrier = shape[1], shape[2]
+            s1, s0 = digit(ctx, 'ps1'), digit(ctx, 'ps0')
+            ctx.assume(z3.ULE(s1.v, 0x35))
+            nfr = 3
+            fr = [digit(ctx, 'pf%d' % i) for i in range(nfr)]
+            if variant == 'frac':
+                text = conc_bytes('20150830T1235') + [s1, s0] + conc_bytes('.') + fr + conc_bytes('Z')
+                utc = (2015, 8, 30, 12, 35)
+                server = P.instant(P.T0)
+            elif variant == 'midnight':
+                text = conc_bytes('20150830T2359') + [s1, s0] + conc_bytes('.') + fr + conc_bytes('Z')
+                utc = (2015, 8, 30, 23, 59)
+                server = P.instant(P.T0 + (23 * 3600 + 59 * 60 + 30) - (12 * 3600 + 36 * 60))
+            else:
+                text = conc_bytes('2015-08-31T01:29:') + [s1, s0] + conc_bytes(',') + fr + conc_bytes('+01:30')
+                utc = (2015, 8, 30, 23, 59)
+                server = P.instant(P.T0 + (23 * 3600 + 59 * 60 + 30) - (12 * 3600 + 36 * 60))
+            scope = '20150830/us-east-1/service/aws4_request'
+            key = sym_bytes(ctx, 'key', 32)
+            prov = P.provider_ok(key)
+            if carrier == 'header':
+                authz = conc_bytes('AWS4-HMAC-SHA256 Credential=AKID/' + scope + ', SignedHeaders=host;x-amz-date, Signature=' + '0' * 64)
+                rq = P.Req('GET', b'/', None, [('host', conc_bytes('h')), ('x-amz-date', text), ('authorization', authz)])
+            else:
+                from . import refmodel as R
+                q = conc_bytes('X-Amz-Algorithm=AWS4-HMAC-SHA256&X-Amz-Credential=AKID%2F' + scope.replace('/', '%2F') + '&X-Amz-Date=') + \
+                    R.pct_encode(ctx, text) + conc_bytes('&X-Amz-SignedHeaders=host&X-Amz-Signature=' + '0' * 64)
+                rq = P.Req('GET', b'/', q, [('host', conc_bytes('h'))])
+            before = len(oracle_of(m).calls)
+            r, _ = P.run(m, rq, 'us-east-1', 'service', prov, server)
+            calls = oracle_of(m).calls[before:]
+            # the instant the authenticator carries (public accessor request_timestamp()): through the crate's own glue
+            rb = rq.build()
+            crr = m.call('CanonicalRequest::from_request_parts', [rb.parts, rb.body, P.options()], None)
+            au_dt = None
+            if crr.variant == 'Ok':
+                ar = m.call('CanonicalRequest::get_authenticator', [Ptr(Cell(crr.fields[0].fields[0]), ()), Ptr(Cell(P.requirements('none')), ())], None)
+                if ar.variant == 'Ok':
+                    au_dt = ar.fields[0].fields[4]
+            return ('pipeline', text, utc, (s1, s0), scope, P.outcome(r), calls, prov, au_dt, fr)
         if kind == 'sts':
             if shape[1] == 'civil':
                 y, mo, d, h, mi, s = [ctx.fresh_bv(n, 32) for n in ('y', 'mo', 'd', 'h', 'mi', 's')]
@@ -288,7 +340,10 @@ def run_shape(prog, shape, tier, seed, res):
         neg = z3.Not(prop) if not isinstance(prop, bool) else z3.BoolVal(not prop)
         sat, model = ctx.satisfiable(neg)
         if sat:
-            res.findings.append(Finding(what, {'text': model_bytes(model, es).decode('latin-1')}, None, None, repr(shape)))
+            inp = {'text': model_bytes(model, es).decode('latin-1')}
+            if kind == 'pipeline':
+                inp['pipeline'] = [shape[1], shape[2]]
+            res.findings.append(Finding(what, inp, None, None, repr(shape)))
 
     def on_path(pr):
         ctx = pr.ctx
@@ -298,6 +353,43 @@ def run_shape(prog, shape, tier, seed, res):
             res.findings.append(Finding('panic: %s' % pr.value.msg, {'shape': repr(shape)}, None, None, repr(shape)))
             return
         v = pr.value
+        if v[0] == 'pipeline':
+            from . import pipeline as P
+            _, text, utc, (s1, s0), scope, o, calls, prov, au_dt, fr = v
+            res.witnesses.add('pipeline-sts')
+            if au_dt is None:
+                fail(ctx, 'no authenticator for a well-formed timestamp (pipeline)', text, False)
+                return
+            import datetime as _dtm
+            base = int(_dtm.datetime(utc[0], utc[1], utc[2], utc[3], utc[4], tzinfo=_dtm.timezone.utc).timestamp())
+            secs_ref = z3.BitVecVal(base, 64) + z3.ZeroExt(56, (s1.z() - 0x30) * 10 + (s0.z() - 0x30))
+            nanos_ref = z3.BitVecVal(0, 32)
+            for i, e in enumerate(fr):
+                nanos_ref = nanos_ref + z3.ZeroExt(24, e.z() - 0x30) * (10 ** (8 - i))
+            exact = z3.And(au_dt.secs == secs_ref, au_dt.nanos == nanos_ref)
+            if not ctx.valid(exact)[0]:
+                fail(ctx, 'request_timestamp() of the authenticator is not the instant the text denotes (seconds and nanoseconds) (pipeline)', text, exact)
+            hm = [c for c in calls if c.kind == 'hmac']
+            sh = [c for c in calls if c.kind == 'sha256']
+            if (o[0] != 'ok' and o[1] != 'SignatureDoesNotMatch') or len(hm) != 1 or len(prov.calls) != 1 or len(sh) < 2:
+                fail(ctx, 'a well-formed timestamp inside the window whose scope date is its UTC date did not reach the signature comparison '
+                          '(outcome %s, %d HMAC evaluations, %d provider calls)' % (o[0] if o[0] == 'ok' else o[1], len(hm), len(prov.calls)), text, False)
+                return
+            y, mo, d, h, mi = utc
+            ts = conc_bytes('%04d%02d%02dT%02d%02d' % (y, mo, d, h, mi)) + [s1, s0] + conc_bytes('Z')
+            want = conc_bytes('AWS4-HMAC-SHA256\n') + ts + conc_bytes('\n' + scope + '\n') + hex_of(sh[-1].out)
+            if len(hm[0].msg) != len(want):
+                fail(ctx, 'string-to-sign has the wrong length (pipeline)', text, False)
+                return
+            prop = zb(bytes_eq(hm[0].msg, want))
+            if not ctx.valid(prop)[0]:
+                fail(ctx, 'timestamp line of the string-to-sign is not the compact UTC rendering of the instant (seconds truncated) (pipeline)', text, prop)
+            rec = P.request_record(None, prov.calls[0])
+            dtp = rec['request_date']
+            same = z3.And(dtp.y == y, dtp.mo == mo, dtp.d == d)
+            if not ctx.valid(same)[0]:
+                fail(ctx, 'key provider asked for another date than the UTC date of the request timestamp (pipeline)', text, same)
+            return
         if v[0] == 'sts-rejected':
             res.witnesses.add('sts-rejected')
             return
@@ -541,6 +633,29 @@ def replay_finding(rp, f):
     if 'text' not in f.inp:
         return False, None
     t = f.inp['text']
+    if f.inp.get('pipeline'):
+        # whole pipeline natively: the string-to-sign the crate builds for this request (authenticator op of `canonical`)
+        variant, carrier = f.inp['pipeline']
+        scope = '20150830/us-east-1/service/aws4_request'
+        if carrier == 'header':
+            authz = 'AWS4-HMAC-SHA256 Credential=AKID/' + scope + ', SignedHeaders=host;x-amz-date, Signature=' + '0' * 64
+            j = {'method': 'GET', 'uri': '/', 'version': 'HTTP/1.1', 'headers': [['host', b'h'.hex()], ['x-amz-date', t.encode().hex()],
+                                                                                 ['authorization', authz.encode().hex()]], 'body_hex': ''}
+        else:
+            import urllib.parse
+            j = {'method': 'GET', 'uri': '/?X-Amz-Algorithm=AWS4-HMAC-SHA256&X-Amz-Credential=AKID%2F' + scope.replace('/', '%2F') + '&X-Amz-Date=' +
+                 urllib.parse.quote(t, safe='-._~') + '&X-Amz-SignedHeaders=host&X-Amz-Signature=' + '0' * 64, 'version': 'HTTP/1.1',
+                 'headers': [['host', b'h'.hex()]], 'body_hex': ''}
+        can = rp.ask({'op': 'canonical', 'request': j, 'options': {'s3': False, 'url_encode_form': False}, 'requirements': {'kind': 'none'}})
+        au = can.get('ok', {}).get('authenticator', {})
+        ref = py_reference(t)
+        if 'ok' not in au or ref[0] != 'ok':
+            return ('ok' not in au) and ref[0] == 'ok', {'native_authenticator': au, 'reference': ref}
+        sts = bytes.fromhex(au['ok']['string_to_sign_hex'] or '').decode('latin-1').split('\n')
+        want = datetime.datetime.fromtimestamp(ref[1], datetime.timezone.utc).strftime('%Y%m%dT%H%M%SZ')
+        ts_native = au['ok'].get('timestamp')
+        bad = len(sts) < 2 or sts[1] != want or (ts_native is not None and (ts_native.get('secs') != ref[1] or ts_native.get('nanos') != ref[2]))
+        return bad, {'native_timestamp_line': sts[1] if len(sts) > 1 else None, 'expected': want, 'native_instant': ts_native, 'reference': ref}
     if 'string-to-sign' in f.what or 'prevalidate' in f.what:
         return False, {'note': 'string-to-sign findings are replayed by the authenticator op', 'text': t}
     nat = native_parse(rp, t)
